@@ -37,7 +37,7 @@ def main():
     res = {'id': pid, 'k': k}
     wt = tempfile.mkdtemp(prefix='seedv.')
     os.rmdir(wt)
-    subprocess.check_call(['git', '-C', '/repo', 'worktree', 'add', '-q', '--detach', wt, 'HEAD'])
+    subprocess.check_call(['git', '-C', '/repo', 'worktree', 'add', '-q', '--detach', wt, os.environ.get('BASE_REV', 'HEAD')])
     try:
         rc, out = sh('git apply %s/patch.diff' % src, wt)
         res['applies'] = rc == 0
